@@ -28,7 +28,8 @@ type SSym struct {
 	RoundTrip string    `json:"roundTrip,omitempty"` // authentication data of this scheme's shape
 	From      *NodeSpec `json:"from,omitempty"`
 	To        *NodeSpec `json:"to,omitempty"`
-	DoTLS     bool      `json:"doTls,omitempty"` // after sending, run the server side of a TLS handshake
+	DoTLS     bool      `json:"doTls,omitempty"`    // after sending, run the server side of a TLS handshake
+	NoReason  bool      `json:"noReason,omitempty"` // a failed session without its reason member
 }
 
 type CliCase struct {
@@ -37,7 +38,7 @@ type CliCase struct {
 	Auth    string `json:"auth"`    // guest | plain | key | external | transport | echo
 	CliTLS  bool   `json:"cliTls"`
 	Script  []SSym `json:"script"`
-	End     string `json:"end"` // eof | silence
+	End     string `json:"end"`               // eof | silence
 	ChanBuf int    `json:"chanBuf,omitempty"` // the client channel's buffer size: 0 = 4 (the default of these scripts), -1 = none, n = n
 }
 
@@ -52,28 +53,29 @@ func (c *CliCase) chanBuf() int {
 }
 
 type CliObs struct {
-	Returned    bool     `json:"returned"`
-	Panic       string   `json:"panic,omitempty"`
-	Err         string   `json:"err,omitempty"`
-	SesState    string   `json:"sesState,omitempty"`
-	Established bool     `json:"established"`
-	State       string   `json:"state"`
-	ID          string   `json:"id"`
-	Local       string   `json:"local"`
-	Remote      string   `json:"remote"`
-	Got         []GotEnv `json:"got"`    // envelopes the scripted server received
-	SentN       int      `json:"sentN"`  // script symbols actually sent
-	LastHS      int      `json:"lastHs"` // index of the symbol after which EstablishSession returned (-1: none)
-	EstAtEnd    bool     `json:"estAtEnd,omitempty"` // Established() once the whole script has been sent and taken (before the server hangs up)
-	CliClosed   bool     `json:"cliClosed"`
-	CloseHangs  bool     `json:"closeHangs,omitempty"` // ClientChannel.Close did not return within the release bound
-	Leftover    string   `json:"leftover,omitempty"`
-	ClosedAtRet bool     `json:"closedAtReturn"`
-	Live        bool     `json:"live"`               // the client still consumes envelopes after the last symbol
-	C2SClear    []M      `json:"c2sClear,omitempty"` // client envelopes found in cleartext on the raw capture
-	C2SRestTLS  bool     `json:"c2sRestTls"`
-	CliEnc      string   `json:"cliEnc"`
-	AuthEnc     []string `json:"authEnc,omitempty"` // client transport encryption each time the authenticator ran
+	Returned      bool     `json:"returned"`
+	Panic         string   `json:"panic,omitempty"`
+	Err           string   `json:"err,omitempty"`
+	SesState      string   `json:"sesState,omitempty"`
+	Established   bool     `json:"established"`
+	State         string   `json:"state"`
+	ID            string   `json:"id"`
+	Local         string   `json:"local"`
+	Remote        string   `json:"remote"`
+	Got           []GotEnv `json:"got"`                     // envelopes the scripted server received
+	SentN         int      `json:"sentN"`                   // script symbols actually sent
+	LastHS        int      `json:"lastHs"`                  // index of the symbol after which EstablishSession returned (-1: none)
+	AttemptOverAt int      `json:"attemptOverAt,omitempty"` // via Client: 1 + number of symbols sent when the Client gave its first connection up and dialled again (0: never)
+	EstAtEnd      bool     `json:"estAtEnd,omitempty"`      // Established() once the whole script has been sent and taken (before the server hangs up)
+	CliClosed     bool     `json:"cliClosed"`
+	CloseHangs    bool     `json:"closeHangs,omitempty"` // ClientChannel.Close did not return within the release bound
+	Leftover      string   `json:"leftover,omitempty"`
+	ClosedAtRet   bool     `json:"closedAtReturn"`
+	Live          bool     `json:"live"`               // the client still consumes envelopes after the last symbol
+	C2SClear      []M      `json:"c2sClear,omitempty"` // client envelopes found in cleartext on the raw capture
+	C2SRestTLS    bool     `json:"c2sRestTls"`
+	CliEnc        string   `json:"cliEnc"`
+	AuthEnc       []string `json:"authEnc,omitempty"` // client transport encryption each time the authenticator ran
 }
 
 func idOf(s string) string {
@@ -125,7 +127,7 @@ func (s *SSym) env() M {
 			m["scheme"] = s.RoundTrip
 			m["authentication"] = authMember(s.RoundTrip, "challenge", false)
 		}
-		if s.State == "failed" {
+		if s.State == "failed" && !s.NoReason {
 			m["reason"] = M{"code": 7, "description": "no"}
 		}
 	case "message":
@@ -474,6 +476,9 @@ func cliAlphabet() []SSym {
 	}
 	a = append(a, ses("established", "A")) // no to
 	a = append(a, ses("new", "A"), ses("finishing", "A"), ses("finished", "A"), ses("failed", "A"), ses("failed", "B"))
+	bare := ses("failed", "A")
+	bare.NoReason = true
+	a = append(a, bare)
 	a = append(a, SSym{Kind: "message"}, SSym{Kind: "request", ID: "A"}, SSym{Kind: "notification"}, SSym{Kind: "garbage"})
 	return a
 }
